@@ -19,7 +19,9 @@ import (
 	"strings"
 
 	"github.com/go-kid/ioc/component_definition"
+	"github.com/go-kid/ioc/container"
 	"github.com/go-kid/ioc/container/processors"
+	"github.com/go-kid/ioc/container/support"
 
 	"verifharness/internal/hx"
 )
@@ -166,6 +168,9 @@ func runTagS(text string, tags []string, w *hx.Writer) {
 		return
 	}
 	c.Obs = hx.Hex(rewritten) + " " + obsProperty(p)
+	if f := scanEndToEnd(text, p); f != "" {
+		c.Oracle = f
+	}
 	// oracle: the shorthand is the value tag `${key}` + the same arguments
 	// (claimed for bracket-balanced text only: wrapping unbalanced text in ${…} changes what "top level" means)
 	var direct *component_definition.Property
@@ -177,6 +182,64 @@ func runTagS(text string, tags []string, w *hx.Writer) {
 		}
 	}
 	w.Put(c)
+}
+
+// scanEndToEnd pushes `prop:"<text>"` (ExtractHandler branch) and `value:"<text>"` (tag-lookup branch) through the
+// REAL scanner (DefaultTagScanDefinitionRegistryPostProcessor.PostProcessDefinitionRegistry of the value processor) on a
+// run-time struct type and compares what arrives in the registry with the direct parse: same value part, same arguments
+// except the scanner's `Required` default, and in particular the same IsRequired() — only an explicit required=false
+// makes a point optional, on both branches.
+func scanEndToEnd(text string, direct *component_definition.Property) string {
+	var fail string
+	pan := hx.Guard(func() {
+		st := reflect.StructOf([]reflect.StructField{
+			{Name: "P", Type: reflect.TypeOf(""), Tag: reflect.StructTag("prop:" + strconv.Quote(text))},
+			{Name: "V", Type: reflect.TypeOf(""), Tag: reflect.StructTag("value:" + strconv.Quote(text))},
+		})
+		if _, ok := st.Field(0).Tag.Lookup("prop"); !ok {
+			return
+		}
+		comp := reflect.New(st).Interface()
+		reg := support.DefaultDefinitionRegistry()
+		scanner, ok := processors.NewValueAwarePostProcessors().(container.DefinitionRegistryPostProcessor)
+		if !ok {
+			fail = "FAIL tag-scan the value processor is no longer a definition scanner"
+			return
+		}
+		if err := scanner.PostProcessDefinitionRegistry(reg, comp, "c"); err != nil {
+			fail = "FAIL tag-scan scanning failed: " + err.Error()
+			return
+		}
+		meta := reg.GetMetaByName("c")
+		var byProp, byValue *component_definition.Property
+		for _, q := range meta.GetAllProperties() {
+			switch q.StructField.Name {
+			case "P":
+				byProp = q
+			case "V":
+				byValue = q
+			}
+		}
+		if byProp == nil || byValue == nil {
+			fail = "FAIL tag-scan a tagged field produced no property"
+			return
+		}
+		if byProp.TagVal != direct.TagVal || byProp.IsRequired() != direct.IsRequired() {
+			fail = fmt.Sprintf("FAIL tag-scan-required prop:%q scanned as value %q required=%v, direct parse of the rewritten text gives %q required=%v",
+				text, byProp.TagVal, byProp.IsRequired(), direct.TagVal, direct.IsRequired())
+			return
+		}
+		var plain *component_definition.Property
+		plain = component_definition.NewProperty(nil, component_definition.PropertyTypeConfiguration, "value", text)
+		if byValue.TagVal != plain.TagVal || byValue.IsRequired() != plain.IsRequired() {
+			fail = fmt.Sprintf("FAIL tag-scan-required value:%q scanned as value %q required=%v, direct parse gives %q required=%v",
+				text, byValue.TagVal, byValue.IsRequired(), plain.TagVal, plain.IsRequired())
+		}
+	})
+	if pan != nil && fail == "" {
+		fail = "FAIL tag-panic scanner: " + fmt.Sprint(pan)
+	}
+	return fail
 }
 
 func tagReplay(scn string, w *hx.Writer) {
